@@ -24,14 +24,17 @@ TextOK   == T.obs.msg => T.obs.text = ExpSrc("text")
 AttsOK   == T.obs.msg => T.obs.attachments = ExpSrc("attachments")
 QrsOK    == T.obs.msg => T.obs.quick_replies = ExpSrc("quick_replies")
 LocaleOK == T.obs.msg => T.obs.locale = ExpLocale
+\* a message to a further URN of the contact (all_urns) that is NOT built from the channel template the first one was built
+\* from reports the language of its own text, not the template's
+Locale2OK == T.obs.msg2 => T.obs.locale2 = ExpLocale /\ T.obs.text2 = ExpSrc("text")
 \* category_localized of the saved result: translation of the category name, nothing for the base language
 NameOK   == T.obs.saved => T.obs.name = (IF LangOf("name") = T.base THEN "" ELSE LangOf("name"))
-\* a message is created whenever there is something to send
-MsgOK    == (HasPart("text") \/ HasPart("attachments")) => T.obs.msg
+\* a message is created whenever there is something to send (all_urns variant: the one to the URN without template)
+MsgOK    == (HasPart("text") \/ HasPart("attachments")) => (T.obs.msg \/ T.obs.msg2)
 
 \* the case arguments a router compares with: translation of the preferred language, base arguments if its length differs
 ArgsOK   == T.obs.saved => T.obs.arguments = Source(PickArgs(P, T.base, T.tr["arguments"]), T.base)
 InvC18 == /\ Check("C18.ArgsOK", ArgsOK) /\ Check("C18.TextOK", TextOK) /\ Check("C18.AttsOK", AttsOK) /\ Check("C18.QrsOK", QrsOK)
-          /\ Check("C18.LocaleOK", LocaleOK) /\ Check("C18.NameOK", NameOK) /\ Check("C18.MsgOK", MsgOK)
+          /\ Check("C18.LocaleOK", LocaleOK) /\ Check("C18.Locale2OK", Locale2OK) /\ Check("C18.NameOK", NameOK) /\ Check("C18.MsgOK", MsgOK)
 Accepted == TLCGet("stats").diameter = Len(Trace)
 =============================================================================
